@@ -93,7 +93,7 @@ spec("C17_precond", "The documented preconditions: what the builders accept is w
 ])
 M = "MicroProofs"
 spec("C05_micro", "Accounting under every interleaving of the micro steps of puts, deletes and reads (calls split at every schedule point)", [M], [
-    (M, "mcall_atomic", None), (M, "mdelete_atomic", None), (M, "minv_step", None), (M, "minv_run", None),
+    (M, "mcall_atomic", None), (M, "mdelete_atomic", None), (M, "mput_atomic", None), (M, "minv_step", None), (M, "minv_run", None),
     (M, "micro_accounting_exact", None), (M, "racing_puts_one_wins", None), (M, "micro_schedule_refines", None),
 ])
 spec("C04_micro", "Delete split at its schedule points: the mark hides the key under every interleaving of micro steps", [M], [
@@ -103,7 +103,7 @@ spec("C13_micro", "shutdown() split into its stages: the flag is final and refus
     (M, "micro_shut_stable", None), (M, "micro_after_flag_refused", None), (M, "mcall_atomic", "shutdown_stages_compose"),
 ])
 spec("C07_micro", "put split at its schedule points: the race between two puts of one key", [M], [
-    (M, "racing_puts_one_wins", None), (M, "minv_run", None), (M, "mcall_atomic", None),
+    (M, "racing_puts_one_wins", None), (M, "minv_run", None), (M, "mcall_atomic", None), (M, "mput_atomic", None),
 ])
 spec("C08_micro", "put_or_update behind the flag check is Window.v's first half", [M], [
     (M, "mupsert_enter_is_half1", None),
@@ -115,7 +115,7 @@ spec("C02_micro", "Reads split at their schedule points", [M], [
     (M, "mcall_atomic", None), (M, "micro_soft_deleted_stays_hidden", "deleted_value_never_returned_micro"),
 ])
 spec("C11_micro", "Writes split between building the command and sending it", [M], [
-    (M, "mcall_atomic", None), (M, "mdelete_atomic", None), (M, "micro_schedule_refines", None),
+    (M, "mcall_atomic", None), (M, "mdelete_atomic", None), (M, "mput_atomic", None), (M, "micro_schedule_refines", None),
 ])
 spec("C01", "Total weight never exceeds the configured cache weight", [I, A], [
     (A, "used_bounded_step", None), (A, "used_bounded_run", None), (I, "used_nonneg", None),
